@@ -153,7 +153,9 @@ class Alg:
         if name == "exp2":
             return A.exp(A.scale(a, math.log(2.0)))
         if name == "exp_m1":
-            return A.sub(A.exp(a), A.one())
+            r = A.sub(A.exp(a), A.one())
+            r[A.zero_mono] = math.expm1(x)  # accurate real part for tiny arguments (the derivative parts are exp's)
+            return r
         if name == "ln":
             return A.ln(a)
         if name == "log2":
@@ -163,7 +165,9 @@ class Alg:
         if name == "log":
             return A.scale(A.ln(a), 1.0 / math.log(extra[0]))
         if name == "ln_1p":
-            return A.ln(A.add(a, A.one()))
+            r = A.ln(A.add(a, A.one()))
+            r[A.zero_mono] = math.log1p(x)  # accurate real part for tiny arguments
+            return r
         if name == "sin":
             return A.sin(a)
         if name == "cos":
